@@ -7,7 +7,6 @@ import (
 	"os"
 	"strings"
 	"testing"
-	"testing/synctest"
 	"time"
 )
 
@@ -73,7 +72,7 @@ func RunOnce(t *testing.T, cfg Config, prefix []int, verbose bool, body func(s *
 }
 
 func runBubble(t *testing.T, cfg Config, prefix []int, verbose bool, body func(s *Sched), x *Exec) {
-	synctest.Test(t, func(t *testing.T) {
+	inBubble(t, func() {
 		s := newSched(prefix)
 		s.Verbose = verbose
 		if cfg.MaxIdle > 0 {
